@@ -38,9 +38,13 @@ def pool():
           X.Pl((0, H, 0), (0, 1, 0)), X.Pl((0, 0, 2), (0, 0, 1))]
     P += [X.Pg(((0, 0, 0), (2, 0, 0), (2, 1, 0), (0, 1, 0))), X.Pg(((0, 0, 0), (2, 0, 0), (0, 2, 0))),
           X.Pg(((1, 0, 0), (1, 1, 0), (1, 1, 1), (1, 0, 1))), X.Pg(((2, 0, 0), (0, 2, 0), (0, 0, 2))),
-          X.Pg(((H, Q, 0), (1, Q, 0), (1, 3 * Q, 0), (H, 3 * Q, 0))), X.Pg(((1, H, -1), (1, H, 1), (3, H, 0)))]
+          X.Pg(((H, Q, 0), (1, Q, 0), (1, 3 * Q, 0), (H, 3 * Q, 0))), X.Pg(((1, H, -1), (1, H, 1), (3, H, 0))),
+          # two coplanar bars crossing like a plus sign (overlap without any vertex of one inside the other)
+          X.Pg(((-1, Q, 0), (3, Q, 0), (3, 3 * Q, 0), (-1, 3 * Q, 0))), X.Pg(((3 * Q, -1, 0), (5 * Q, -1, 0), (5 * Q, 2, 0), (3 * Q, 2, 0)))]
     P += [box, tet, X.xform(box, ((1, 0, 0), (0, 1, 0), (0, 0, 1)), 1, (1, H, H)),
-          X.Ph(tuple(product((H, 1), (Q, 3 * Q), (Q, 3 * Q))))]
+          X.Ph(tuple(product((H, 1), (Q, 3 * Q), (Q, 3 * Q)))),
+          # an elongated, not centrally symmetric body and a small box near its apex
+          A.polyhedron('spire'), X.Ph(tuple(product((F(7, 8), F(9, 8)), (F(7, 8), F(9, 8)), (F(13, 2), 7))))]
     return P
 
 
